@@ -47,10 +47,29 @@ def opMerge (j : Json) : Json :=
       | .error e => errJ e
       | .ok r => Json.mkObj [("ok", nodeJ r)]
 
+/-- op "config": construct + flatten + Config(...) with a world of free symbols -/
+def opConfig (j : Json) : Json :=
+  match parseDocs j, worldOf j with
+  | .error e, _ => Json.mkObj [("bad", .str e)]
+  | _, .error e => Json.mkObj [("bad", .str e)]
+  | .ok docs, .ok w =>
+    match constructAll docs with
+    | .error e => errJ e
+    | .ok [] => Json.mkObj [("ok", Json.mkObj [("d", .arr #[]), ("o", .arr #[])]), ("log", .arr #[])]
+    | .ok ns =>
+      match flatten ns with
+      | .error e => errJ e
+      | .ok r =>
+        match config w r with
+        | .error e => errJ e
+        | .ok (v, st) =>
+          Json.mkObj [("ok", valJ v), ("log", .arr (st.log.map (fun e => Json.mkObj [("p", pathJ e.path), ("w", .str e.what)])).toArray)]
+
 def dispatch (j : Json) : Json :=
   match j.getObjVal? "op" with
   | .ok (.str "parse") => opParse j
   | .ok (.str "merge") => opMerge j
+  | .ok (.str "config") => opConfig j
   | _ => Json.mkObj [("bad", .str "unknown op")]
 
 partial def loop (h : IO.FS.Stream) (out : IO.FS.Stream) : IO Unit := do
